@@ -69,30 +69,31 @@ type violationOut struct {
 }
 
 type knownOut struct {
-	Oracle    string `json:"oracle"`
-	Signature string `json:"signature"`
-	What      string `json:"what"`
-	Count     int    `json:"count"`
-	Example   string `json:"example"`
+	Oracle    string         `json:"oracle"`
+	Signature string         `json:"signature"`
+	What      string         `json:"what"`
+	Count     int            `json:"count"`
+	Example   string         `json:"example"`
+	Sigs      map[string]int `json:"signatures_seen"`
 }
 
 type workerOut struct {
-	Prop        string              `json:"prop"`
-	Worker      int                 `json:"worker"`
-	Runs        int                 `json:"runs"`
-	NonTrivial  int                 `json:"nontrivial"`
-	NTHashes    string              `json:"nontrivial_hashes_b64"`
-	StateHashes string              `json:"state_hashes_b64"`
-	Faults      map[string]int      `json:"faults"`
-	Probes      map[string]int      `json:"probes"`
-	SimSeconds  float64             `json:"sim_seconds"`
-	Choices     int64               `json:"choices"`
-	Events      int64               `json:"events"`
+	Prop        string                   `json:"prop"`
+	Worker      int                      `json:"worker"`
+	Runs        int                      `json:"runs"`
+	NonTrivial  int                      `json:"nontrivial"`
+	NTHashes    string                   `json:"nontrivial_hashes_b64"`
+	StateHashes string                   `json:"state_hashes_b64"`
+	Faults      map[string]int           `json:"faults"`
+	Probes      map[string]int           `json:"probes"`
+	SimSeconds  float64                  `json:"sim_seconds"`
+	Choices     int64                    `json:"choices"`
+	Events      int64                    `json:"events"`
 	Samples     []map[string]interface{} `json:"samples"`
-	Violations  []violationOut      `json:"violations"`
-	Known       map[string]*knownOut `json:"known"`
-	HarnessErrs []string            `json:"harness_errors"`
-	WallS       float64             `json:"wall_s"`
+	Violations  []violationOut           `json:"violations"`
+	Known       map[string]*knownOut     `json:"known"`
+	HarnessErrs []string                 `json:"harness_errors"`
+	WallS       float64                  `json:"wall_s"`
 }
 
 func b64u64(set map[uint64]struct{}) string {
@@ -152,22 +153,28 @@ func TestSim(t *testing.T) {
 		k := e.Oracle + "/" + e.Signature
 		ko := out.Known[k]
 		if ko == nil {
-			ko = &knownOut{Oracle: e.Oracle, Signature: e.Signature, What: e.What, Example: f.Sig + ": " + f.Detail}
+			ko = &knownOut{Oracle: e.Oracle, Signature: e.Signature, What: e.What, Example: f.Sig + ": " + f.Detail, Sigs: map[string]int{}}
 			out.Known[k] = ko
 		}
 		ko.Count++
+		ko.Sigs[f.Sig]++
 	}
 	var hashLog *os.File
 	if hp := os.Getenv("VERIF_TRACEHASH_OUT"); hp != "" {
 		hashLog, _ = os.Create(hp)
 		defer hashLog.Close()
 	}
+	savedKnown := map[string]bool{}
 	start := time.Now()
-	for i := 0; i < maxRuns; i++ {
-		if i > 0 && time.Since(start) > budget {
+	runStart := int(envInt("VERIF_RUN_START", 0))
+	for i := runStart; i < runStart+maxRuns; i++ {
+		if i > runStart && time.Since(start) > budget {
 			break
 		}
 		runSeed := simkit.Mix(seed, uint64(worker), uint64(i))
+		if rs := os.Getenv("VERIF_RUN_SEED"); rs != "" {
+			runSeed, _ = strconv.ParseUint(rs, 10, 64)
+		}
 		tape := simkit.NewTape(runSeed)
 		var o simkit.Outcome
 		t.Run(fmt.Sprintf("w%d-r%d", worker, i), func(st *testing.T) {
@@ -207,6 +214,16 @@ func TestSim(t *testing.T) {
 		}
 		for _, kf := range c.Known {
 			noteKnown(kf)
+			// keep one (unminimised) example replay per actual signature and worker
+			if os.Getenv("VERIF_KEEP_KNOWN") != "" && !savedKnown[kf.Sig] {
+				savedKnown[kf.Sig] = true
+				slug := regexp.MustCompile(`[^A-Za-z0-9]+`).ReplaceAllString(kf.Sig, "-")
+				rf := &simkit.ReplayFile{Property: propID, Oracle: kf.Oracle, Signature: kf.Sig, Detail: kf.Detail,
+					Seed: seed, RunSeed: runSeed, Tier: tier, Tape: tape.Values(), TapeOrig: tape.Pos(),
+					TraceHash: c.TraceHash(), Faults: c.Faults, Trace: c.Trace()}
+				os.MkdirAll(replayDir, 0755)
+				simkit.WriteReplay(fmt.Sprintf("%s/%s-known-%s-w%d.json", replayDir, propID, slug, worker), rf)
+			}
 		}
 		if o.HarnessErr != "" {
 			out.HarnessErrs = append(out.HarnessErrs, fmt.Sprintf("run_seed=%d: %s", runSeed, o.HarnessErr))
@@ -225,7 +242,7 @@ func TestSim(t *testing.T) {
 		// A new violation: minimise, write the replay file, verify it replays, stop.
 		vals := tape.Values()
 		min, nShrink := vals, 0
-		if !p.NoShrink {
+		if !p.NoShrink && os.Getenv("VERIF_NOSHRINK") == "" {
 			min, nShrink = simkit.Shrink(t, p, tier, runSeed, vals, o.Failure, nil)
 		}
 		var ro simkit.Outcome
@@ -242,7 +259,7 @@ func TestSim(t *testing.T) {
 			min = vals
 		}
 		rf := &simkit.ReplayFile{Property: propID, Oracle: fail.Oracle, Signature: fail.Sig, Detail: fail.Detail,
-			Seed: seed, RunSeed: runSeed, Tier: tier, Tape: min, TapeOrig: len(vals), ShrinkRun: nShrink,
+			Seed: seed, RunSeed: runSeed, Tier: tier, Tape: min, TapeFull: vals, TapeOrig: len(vals), ShrinkRun: nShrink,
 			TraceHash: rc.TraceHash(), Faults: rc.Faults, Trace: rc.Trace()}
 		path := fmt.Sprintf("%s/%s-%d-w%d-r%d.json", replayDir, propID, seed, worker, i)
 		os.MkdirAll(replayDir, 0755)
